@@ -37,7 +37,9 @@ pub fn lit_programs(tier: &str) -> (Vec<Program>, String) {
     if tier == "quick" {
         v.extend(fam::lit(1, 2, 2, 3, false, false));
         v.extend(fam::lit(2, 2, 2, 4, false, false));
-        level = "LIT: 2 threads, <=3 events on 1 location, <=4 events on 2 locations (reduced orderings) + sentinels".to_string();
+        v.extend(fam::lit(1, 3, 1, 3, false, false));
+        v.extend(fam::lit(2, 3, 1, 3, false, false));
+        level = "LIT: 2 threads, <=3 events on 1 location, <=4 events on 2 locations; 3 threads x 1 event on 1-2 locations (reduced orderings) + sentinels".to_string();
     } else {
         v.extend(fam::lit(1, 2, 3, 4, true, true));
         v.extend(fam::lit(2, 2, 2, 4, true, true));
@@ -83,7 +85,9 @@ pub fn spec(check: &str, tier: &str) -> Option<CheckSpec> {
                 level = format!("{}; {}", level, l);
             }
             progs.extend(fam::spin_lock_family(tier));
-            level.push_str("; SPIN+LOCK");
+            progs.extend(fam::lock_arrival_family(tier));
+            progs.extend(fam::mix_programs(tier));
+            level.push_str("; SPIN+LOCK; MIX (blocks of different primitive kinds)");
             Some(CheckSpec {
                 id: "C01",
                 level: "model_checking",
@@ -133,6 +137,8 @@ pub fn spec(check: &str, tier: &str) -> Option<CheckSpec> {
             let (c, l3) = chan_programs(tier);
             progs.extend(w);
             progs.extend(c);
+            progs.extend(fam::mix_programs(tier));
+            progs.extend(fam::spin_lock_family(tier));
             Some(CheckSpec {
                 id: "C05",
                 level: "model_checking",
@@ -254,12 +260,12 @@ pub fn spec(check: &str, tier: &str) -> Option<CheckSpec> {
                 let step = (v.len() / n).max(1);
                 v.into_iter().step_by(step).collect()
             };
-            progs.extend(pick(fam::wait_family(1, 2, 2, 12, true, true, true), if tier == "quick" { 10 } else { 400 }));
+            progs.extend(pick(fam::wait_family(1, 2, 2, 12, true, true, true), if tier == "quick" { 10 } else { 150 }));
             progs.extend(pick(fam::chan_family(2, 2, 2, true), if tier == "quick" { 6 } else { 60 }));
-            progs.extend(pick(fam::a_sc(1, 2, 2, 4, false), if tier == "quick" { 10 } else { 170 }));
-            progs.extend(pick(fam::stat_programs("quick"), if tier == "quick" { 14 } else { 300 }));
+            progs.extend(pick(fam::a_sc(1, 2, 2, 4, false), if tier == "quick" { 10 } else { 80 }));
+            progs.extend(pick(fam::stat_programs("quick"), if tier == "quick" { 14 } else { 120 }));
             let mut cfg = cfg.clone();
-            cfg.iter_cap = if tier == "quick" { 300 } else { 2500 };
+            cfg.iter_cap = if tier == "quick" { 300 } else { 1200 };
             let mut js = jobs("C13", tier, progs.clone(), &cfg);
             // the same with a preemption bound (the bound is part of what a checkpoint must carry)
             let bounded: Vec<Program> = progs.iter().filter(|p| p.threads.len() >= 3 && p.objs.tls.is_empty()).cloned().collect();
@@ -281,7 +287,7 @@ pub fn spec(check: &str, tier: &str) -> Option<CheckSpec> {
                 id: "C13",
                 level: "model_checking",
                 rule: "programs of the sentinel lists and evenly spaced members of the WAIT/CHAN/A-sc families (schedule, load and spurious branches); two full runs; for every checkpoint interval and every stop point k an interrupted run plus a resumed run; for every distinct outcome a failing variant; non-trivial = >= 3 iterations",
-                assumptions: vec!["hook H1 paths and harness histories identify an execution", "quick tier uses about 30 evenly spaced stop points per interval and intervals {1,3}; thorough every stop point and {1,2,3,7}"],
+                assumptions: vec!["hook H1 paths and harness histories identify an execution", "quick tier uses about 30 evenly spaced stop points per interval and intervals {1,3}; thorough every stop point (about 120 evenly spaced ones for runs longer than 120 iterations) and {1,2,3,7}"],
                 wall_cap: Duration::from_secs(if tier == "quick" { 60 } else { 900 }),
                 jobs: js,
                 self_checks: vec![],
